@@ -682,7 +682,7 @@ pub fn property() -> Property {
             PropSub {
                 name: "build",
                 strategy: build_strategy,
-                cases: |t| t.pick(120_000, 2_500_000),
+                cases: |t| t.pick(600_000, 4_000_000),
                 run: run_build,
                 floors: &[("bridging", 0.10), ("touching-bound", 0.10), ("adjacent", 0.10), ("nested", 0.10), ("v6-dotted-quad", 0.02)],
             }
@@ -690,7 +690,7 @@ pub fn property() -> Property {
             PropSub {
                 name: "pair",
                 strategy: pair_strategy,
-                cases: |t| t.pick(100_000, 2_000_000),
+                cases: |t| t.pick(500_000, 3_000_000),
                 run: run_pair,
                 floors: &[("bridging", 0.05), ("touching-bound", 0.10), ("equal", 0.05), ("b-strict-subset", 0.05), ("partial-overlap", 0.10)],
             }
